@@ -33,7 +33,8 @@ pub fn compress_block<M: Matcher>(state: &mut CompressState<M>, output: &mut Vec
     // literals section
 
     let mut writer = BitWriter::from(output);
-    if literals_vec.len() > 1024 {
+    // A huffman table needs at least two distinct symbols
+    if literals_vec.len() > 1024 && literals_vec.iter().any(|x| *x != literals_vec[0]) {
         if let Some(table) =
             compress_literals(&literals_vec, state.last_huff_table.as_ref(), &mut writer)
         {
